@@ -47,6 +47,8 @@ pub fn validate_entire_schema<TCompilationProfile: CompilationProfile>(
 
     errors.extend(validate_all_id_fields(db));
 
+    errors.extend(validate_client_selectables_are_uniquely_defined(db));
+
     errors.extend(
         validated_entrypoints(db)
             .values()
@@ -251,4 +253,23 @@ fn validate_selectables<TCompilationProfile: CompilationProfile>(
     }
 
     errors
+}
+
+/// A client field or pointer must not have the name of another selectable of its parent type
+/// (e.g. `field User.id`). Nothing else reports this when the name is never selected.
+fn validate_client_selectables_are_uniquely_defined<TCompilationProfile: CompilationProfile>(
+    db: &IsographDatabase<TCompilationProfile>,
+) -> Vec<Diagnostic> {
+    match deprecated_client_selectable_map(db) {
+        Ok(client_selectables) => client_selectables
+            .keys()
+            .filter_map(|(parent_entity_name, selectable_name)| {
+                crate::selectable_named(db, *parent_entity_name, *selectable_name)
+                    .clone_err()
+                    .err()
+            })
+            .collect(),
+        // reported by validate_scalar_selectable_directive_sets
+        Err(_) => vec![],
+    }
 }
